@@ -2,6 +2,7 @@ mod alloc;
 mod batch;
 mod exec;
 mod h1;
+mod mp;
 mod pc;
 mod resp;
 mod rng;
@@ -86,6 +87,7 @@ fn main() {
         "C05" => go!(h1::H1Rig { prop: "C05" }),
         "C06" => go!(h1::H1Rig { prop: "C06" }),
         "C07" => go!(pc::PcRig),
+        "C15" => go!(mp::MpRig),
         _ => {
             eprintln!("unknown property {}", prop);
             std::process::exit(2);
